@@ -901,11 +901,13 @@ func (f File) checkFieldNames(settings GenerateSettings) error {
 	return nil
 }
 
-// goPredeclared lists Go's predeclared types and constants, and the builtin functions that
-// generated code calls (copy, len, make, new, panic); an unexported definition named like
-// one of them would shadow it for the rest of the generated package.
+// goPredeclared lists Go's predeclared types and constants, the builtin functions that
+// generated code calls (copy, len, make, new, panic), the packages a generated file imports
+// and init; an unexported definition named like one of them would shadow or clash with it in
+// the generated package.
 var goPredeclared = map[string]bool{
 	"copy": true, "len": true, "make": true, "new": true, "panic": true,
+	"bebop": true, "iohelp": true, "io": true, "time": true, "math": true, "init": true,
 	"any": true, "bool": true, "byte": true, "comparable": true, "complex64": true, "complex128": true,
 	"error": true, "float32": true, "float64": true, "int": true, "int8": true, "int16": true,
 	"int32": true, "int64": true, "rune": true, "string": true, "uint": true, "uint8": true,
